@@ -140,6 +140,14 @@ func shareMovers(h *History, blk *BlockRecord, poolID uint64) (up, down bool) {
 				down = true // begin-block sweep may liquidate
 			}
 		}
+		// the pool did not exist before this block: its creation is the first deposit (the creator's initial liquidity)
+		if h.Prev.Pool(poolID) == nil {
+			for _, tx := range blk.Txs {
+				if tx.Code == 0 && strings.HasSuffix(tx.MsgType, "amm.MsgCreatePool") {
+					up = true
+				}
+			}
+		}
 	}
 	return
 }
